@@ -109,6 +109,10 @@ func placeExec(c *Ctx, op string) {
 			os.MkdirAll(filepath.Join(d, "oldsub"), 0755)
 			os.WriteFile(filepath.Join(d, "oldfile"), []byte("old"), 0600)
 			os.WriteFile(filepath.Join(d, "oldsub", "x"), []byte("old"), 0600)
+		case "symlink": // the destination is a symlink to an existing directory next to it
+			os.MkdirAll(filepath.Join(parent, "elsewhere"), 0755)
+			os.WriteFile(filepath.Join(parent, "elsewhere", "precious"), []byte("precious"), 0600)
+			os.Symlink("elsewhere", d)
 		case "foreign":
 			os.MkdirAll(d, 0700)
 			os.WriteFile(filepath.Join(d, "oldfile"), []byte("old"), 0600)
@@ -189,8 +193,22 @@ func placeExec(c *Ctx, op string) {
 			id3, e3, pan3 := safeCall(func() (api.WareID, error) {
 				return tartrans.Unpack(ctx, id, d, uf, rio.PlacementMode(mode), wh, rio.Monitor{})
 			})
+			if pre == "symlink" {
+				// refusing is fine, and so is replacing the link by the ware; what the link points at is left alone
+				// (not written to, not hidden under a mount), and nothing of the ware shows up there
+				el := filepath.Join(filepath.Dir(d), "elsewhere")
+				if ents, e := os.ReadDir(el); e != nil || len(ents) != 1 || ents[0].Name() != "precious" {
+					c.PropFail("placement-tree", fmt.Sprintf("unpack(%s) onto a destination that is a symlink to a directory changed / hid the directory the link points at", mode), op)
+				}
+				if mounted(el) {
+					c.PropFail("mount-left", fmt.Sprintf("unpack(%s) onto a symlink destination mounted the ware on the link's target", mode), op)
+					syscall.Unmount(el, 0)
+				}
+			}
 			if resTok(id3, e3, pan3) != "ok "+id.Hash {
-				if envOvl && mode == "mount" {
+				if pre == "symlink" {
+					c.H("op:u:" + mode + ":symlink-refused")
+				} else if envOvl && mode == "mount" {
 					c.H("op:u:mount:refused-in-ovl-env")
 				} else if !(mode == "direct" && pre != "absent") { // direct placement over existing content is not promised to work
 					c.PropFail("placement-failed", fmt.Sprintf("unpack(%s) over %s destination: %s", mode, pre, resTok(id3, e3, pan3)), op)
@@ -388,7 +406,7 @@ func placeEngine(c *Ctx) {
 		n, maxOps = 200, 36
 	}
 	modes := []string{"direct", "copy", "none", "mount"}
-	pres := []string{"absent", "junk", "foreign"}
+	pres := []string{"absent", "junk", "foreign", "symlink"}
 	places := []string{"copy", "mountrw", "bindro", "copyro"}
 	writes := []string{"write", "truncate", "delete", "chmod", "chown", "rename", "mkdir", "utimes"}
 	for k := 0; k < n; k++ {
@@ -424,7 +442,7 @@ func placeEngine(c *Ctx) {
 		// fixed prefix: the route x pre-state combinations that matter most, then the writable-mount life cycle
 		ops = append(ops, "u:copy:foreign", "u:copy:junk", "u:direct:absent", "u:none:absent")
 		if k%5 != 4 {
-			ops = append(ops, "u:mount:junk")
+			ops = append(ops, "u:mount:junk", "u:mount:symlink", "u:copy:symlink")
 		}
 		// C10: routes and histories
 		l := 2 + c.Intn(maxOps/2)
@@ -435,7 +453,7 @@ func placeEngine(c *Ctx) {
 			if c.Chance(1, 8) {
 				ops = append(ops, "alt:"+modes[1+c.Intn(3)])
 			}
-			ops = append(ops, fmt.Sprintf("u:%s:%s", modes[c.Intn(4)], pres[c.Intn(3)]))
+			ops = append(ops, fmt.Sprintf("u:%s:%s", modes[c.Intn(4)], pres[c.Intn(len(pres))]))
 		}
 		// C11: placements, writes, teardowns, placements again
 		np := 0
